@@ -80,16 +80,47 @@ def build_harness(binname):
     log("[build] harness binary %s built in %.0fs" % (binname, time.time() - t0))
 
 
+_tmp_n = 0
+_tmp_lock = __import__("threading").Lock()
+
+
+def _janitor(base, max_age_s=5400):
+    """Remove scratch directories left behind by earlier (killed / hand-started) harness processes."""
+    now = time.time()
+    try:
+        for name in os.listdir(base):
+            p = os.path.join(base, name)
+            try:
+                if now - os.path.getmtime(p) > max_age_s:
+                    shutil.rmtree(p, ignore_errors=True)
+            except OSError:
+                pass
+    except OSError:
+        pass
+
+
 def ckbv(binname, args, timeout=1800, env=None, stdin=None):
     """Run harness binary `binname` (src/bin/<binname>.rs) with args; returns (rc, combined output)."""
     build_harness(binname)
-    tmp = os.path.join(HARNESS, "target", "tmp")
+    base = os.path.join(HARNESS, "target", "tmp")
+    os.makedirs(base, exist_ok=True)
+    _janitor(base)
+    global _tmp_n
+    with _tmp_lock:                      # ckbv may be called from several threads of one check
+        _tmp_n += 1
+        n = _tmp_n
+    # one TMPDIR per invocation, removed afterwards: nodes that leave through process::exit / abort never
+    # delete their RocksDB directories (75 MB of preallocated WAL each)
+    tmp = os.path.join(base, "run-%d-%d" % (os.getpid(), n))
     os.makedirs(tmp, exist_ok=True)
     e = {"TMPDIR": tmp, "RUST_BACKTRACE": "0"}
     if env:
         e.update(env)
-    rc, out = sh([os.path.join(BIN_DIR, binname)] + [str(a) for a in args], timeout=timeout, env=e, cwd=ROOT,
-                 stdin=stdin)
+    try:
+        rc, out = sh([os.path.join(BIN_DIR, binname)] + [str(a) for a in args], timeout=timeout, env=e, cwd=ROOT,
+                     stdin=stdin)
+    finally:
+        shutil.rmtree(tmp, ignore_errors=True)
     return rc, out
 
 
